@@ -327,6 +327,36 @@ def multi_doc(pane, res, pool, tmp):
                                        f"{desc} returned {core.srepr(got, 80)}", cell, 2 + len(docs))
 
 
+def multi_doc_union_orders(pane, res):
+    """from_yaml_all for Union[int, float] and then for Union[float, int] in one interpreter: one converted value per document,
+    converted by the type that was PASSED (the two unions compare equal; whatever is memoised per type must tell them apart)."""
+    for first, second in ((int, float), (float, int)):
+        grammar.fresh_typing()
+        for order in ((first, second), (second, first)):
+            U = grammar.pin(t.Union[order])
+            want = [order[0](1) if order[0] is float else 1, 2.5]
+            res['states'] += 1
+            res['evals'] += 1
+            res['validated'] += 1
+            res['transitions'] += 3
+            res['nontrivial'].add(f"multi_union|{order[0].__name__}")
+            cell = {'multi_union': True}
+            try:
+                stream = io.StringIO()
+                for d in (1, 2.5):
+                    pane.write_yaml(d, stream, ty=U)
+                stream.seek(0)
+                got = pane.from_yaml_all(stream, U)
+            except Exception as e:  # noqa
+                core.add_violation(res, {'kind': 'multi_doc_raises', 'exc': type(e).__name__},
+                                   f"from_yaml_all(stream, Union[{order[0].__name__}, {order[1].__name__}]) raised {type(e).__name__}: {core.sstr(e, 100)}", cell, 3)
+                continue
+            if not values.typed_eq(got, want):
+                core.add_violation(res, {'kind': 'documents_converted_by_another_type', 'first': order[0].__name__},
+                                   f"from_yaml_all of the documents 1 and 2.5 as Union[{order[0].__name__}, {order[1].__name__}] (after the same with the members "
+                                   f"the other way round) returned {got!r}, expected {want!r}", cell, 3)
+
+
 def failing_read_closes(pane, res, tmp):
     """Paths are closed even when the conversion fails."""
     from pane.errors import ConvertError
@@ -406,6 +436,7 @@ def run_shard(shard, tier):
             pool = [materialise(pane, e) for e in value_pool()]
             multi_doc(pane, res, pool, tmp)
             failing_read_closes(pane, res, tmp)
+            multi_doc_union_orders(pane, res)
             res['samples'].append({'multi_document_history': ['write_yaml(3)', 'write_yaml(None)', 'seek(0)', 'from_yaml_all -> [3, None]']})
         else:
             run_value(pane, res, shard['vi'], tier, tmp)
@@ -426,6 +457,7 @@ def replay(cell):
             pool = [materialise(pane, e) for e in value_pool()]
             multi_doc(pane, res, pool, tmp)
             failing_read_closes(pane, res, tmp)
+            multi_doc_union_orders(pane, res)
             out = [v for lst in res['violations'].values() for v in lst]
             return [v for v in out if v['cell'] == cell] or out
         run_value(pane, res, cell['vi'], 'thorough', tmp, only=(cell['fmt'], cell['sink'], cell['source'], cell['opts']))
